@@ -170,7 +170,8 @@ def con_cases():
             continue
         nvar = sum(1 for _, t, _ in c.fields if t in ('bytes', 'string') or t.startswith('(vector') or t == 'Bool' or
                    (t in u.by_cls and not ST.is_bare_name(t)))
-        rots = [0, 5] if nvar == 0 else [0, 1, 2, 5, 7, 11]
+        import os
+        rots = [0, 5] if nvar == 0 else (list(range(13)) if os.environ.get('VERIF_TIER') == 'thorough' else [0, 1, 2, 5, 7, 11])
         for fv in flag_values(c):
             for r in (rots if fv in (None, 0) or nvar else rots[:2]):
                 out.append({'name': c.name, 'flags': fv, 'rot': r})
